@@ -54,7 +54,8 @@ CHECKS = {
          TRUST, "DESIGN.md 5 C13"),
  "C15": ("metamorphic property-based testing (hide statements behind OpenMP conditional sentinels, free and fixed form)",
          "Random subsets of removable statements hidden behind '!$ ' / 'c$' / '*$' sentinels incl. continuation lines; "
-         "enabled parse == original tree, disabled parse == tree of the program without them, kept comments == hidden lines.",
+         "enabled parse == original tree (also combined with kept comments and with process_directives, and in explicit "
+         "fix / strict-f77 reader modes), disabled parse == tree of the program without them, kept comments == hidden lines.",
          TRUST, "DESIGN.md 5 C15"),
  "C16": ("model-based property testing (scope-tree generator with ground-truth symbol tables and shadowing; reference resolver)",
          "Random nests of program units, contained subprograms and BLOCKs (also inside back-tracked non-block DOs) with "
@@ -71,10 +72,10 @@ CHECKS = {
          TRUST, "DESIGN.md 5 C09"),
  "C19": ("property-based round-trip of the legacy parser (generated F77/F90 programs; print/parse/print fixpoint, block structure and expression-text oracles)",
          "Generated F77/F90 programs in free and fixed form, analyze on/off: fparser1's regenerated source must re-parse to "
-         "the same statements and block structure, the nesting must equal the generator's, and expression texts must "
-         "survive verbatim.", TRUST, "DESIGN.md 5 C19"),
+         "the same statements and block structure, the nesting must equal the generator's, expression texts must "
+         "survive verbatim and every name, number and literal of a source statement must occur in its regenerated line.", TRUST, "DESIGN.md 5 C19"),
  "C20": ("scaling-relation testing over size-indexed program families with a deterministic work counter (catalogue + generated nest recipes)",
-         "For 37 catalogue families and drawn nest recipes the number of rule constructions at size 2n must stay below "
+         "For the catalogue families (about 70) and drawn nest / expression-wrapper / sibling / implied-DO recipes the number of rule constructions at size 2n must stay below "
          "4x that at size n plus a constant; parses are capped at 5e6 constructions.",
          TRUST + " The counter wraps Base.__new__ from the harness.", "DESIGN.md 5 C20"),
  "C01": ("property-based round-trip (Hypothesis-driven program generator; parse/print/parse fixpoint oracle)",
